@@ -590,7 +590,7 @@ class VSocket:
         if self.closed:
             raise OSError(errno.EBADF, 'Bad file descriptor')
         self._check_kill()
-        if self.dead in ('reset', 'epipe', 'eof'):
+        if self.dead in ('reset', 'epipe', 'eof', 'send-epipe'):
             raise OSError(errno.EPIPE if self.dead != 'reset' else errno.ECONNRESET, 'connection lost')
         plan = self.net.plan
         mode = s.chooser.pick_choice(plan.send_modes, 'send-mode')
